@@ -131,3 +131,10 @@ func VerifZetas() [N]int32 { return zetas }
 func VerifPackSigInto(dst []uint8, c []uint8, z *[L][N]int32, h *[K][N]int32) error {
 	return packSig(dst, c, verifVecL(z), verifVecK(h))
 }
+
+// VerifPointwiseInto is VerifPointwise with the output polynomial holding the caller's previous contents.
+func VerifPointwiseInto(c, a, b *[N]int32) {
+	pc := poly{*c}
+	polyPointWiseMontgomery(&pc, &poly{*a}, &poly{*b})
+	*c = pc.coeffs
+}
